@@ -207,6 +207,14 @@ func (g *sgen) fAugChain() {
 func (g *sgen) fRevs() {
 	g.feat("several-revisions")
 	revs := []string{"2019-01-01", "2020-06-01", "2021-12-31"}
+	if g.chance(0.35) {
+		// revision arguments that are not calendar dates (goyang does not validate them): which
+		// revision the bare name denotes must still not depend on the load order
+		g.feat("revision-strings-not-dates")
+		pool := []string{"2019-02-29", "2021-06-31", "2020-1-5", "2020-13-01", "0000-00-00", "9999-99-99", "2020-06-01", "20200601", "2020-06-1"}
+		g.r.Shuffle(len(pool), func(i, j int) { pool[i], pool[j] = pool[j], pool[i] })
+		revs = pool[:3]
+	}
 	g.r.Shuffle(len(revs), func(i, j int) { revs[i], revs[j] = revs[j], revs[i] })
 	k := 2 + g.r.Intn(2)
 	withBare := g.chance(0.3)
